@@ -137,7 +137,9 @@ class EvalNode(ConfigScalar(str)):
         gbls['__builtins__'] = ConfigAwareBuiltins(ctx.ecfg, ctx, self, path)
 
         lines = self.strip().split('\n')
-        lines = [lline for line in lines for lline in line.split(';')]
+        # statements in front of the final expression can share its line ('x = 1; x + 1'): split it at the last ';' that python
+        # itself reads as a separator (not inside a string literal); the other lines are python's business
+        lines[-1:] = EvalNode._split_last_statement(lines[-1])
 
         exec_lines = "\n".join(lines[:-1])
         eval_line = lines[-1].strip()
@@ -177,6 +179,21 @@ class EvalNode(ConfigScalar(str)):
     def tag():
         return '!eval'
 
+
+    @staticmethod
+    def _split_last_statement(line):
+        import io
+        import tokenize
+        pos = None
+        try:
+            for tok in tokenize.generate_tokens(io.StringIO(line).readline):
+                if tok.type == tokenize.OP and tok.string == ';':
+                    pos = tok.start[1]
+        except (tokenize.TokenError, SyntaxError, IndentationError):
+            pass # (e.g. the end of a multi-line literal: whatever has been seen up to here still holds)
+        if pos is None:
+            return [line]
+        return [line[:pos], line[pos+1:]]
 
     @staticmethod
     def _patch_access_to_globals(code):
